@@ -82,6 +82,9 @@ def source(sfx, p, with_inner=True, variant=0):
     L += [f"class Own{S}(Schema):", f"    pet: Union['Cat{S}', 'Dog{S}'] = Field(discriminator='kind', default=None)", "",
           f"class Cat{S}(Schema):", "    kind: Literal['cat'] = 'cat'", "",
           f"class Dog{S}(Schema):", "    name: str = ''", ""]
+    # a class whose options apply to the classes nested in it, holding a union over a nested class
+    L += [f"class NIn{S}(Schema):", "    a: int", "",
+          f"class NOut{S}(Schema):", "    __options__ = Options(override=True)", f"    x: Union[NIn{S}, int]", ""]
     L += ["@utype.parse", f"def f{S}(n: int, lst: List[int] = [1], dct: Dict[str, List[int]] = {{'k': [1]}}, leaf: Optional[Leaf] = None, *args: int, **kw: int):",
           "    return {'n': n, 'lst': lst, 'dct': dct, 'leaf': leaf, 'args': list(args), 'kw': kw}", ""]
     L += ["@utype.parse", f"def gen{S}(n: int, acc: List[int] = [0]) -> Generator[int, None, List[int]]:",
@@ -183,6 +186,9 @@ def generate(rng, tier):
                 ops.append({"op": "init", "cls": cls, "data": copy.deepcopy(ops[m]["data"]), "same_as": m})
             else:
                 ops.append({"op": "init", "cls": cls, "data": fill(rng.choice(INIT_TEMPLATES if cls == "A" else D_TEMPLATES))})
+        elif r < 0.405:
+            # parse, then assign to the nested instance: equal parsed instances take the same assignment alike
+            ops.append({"op": "nested_assign", "value": rng.choice(["2", 3, "zz"])})
         elif r < 0.42:
             ops.append({"op": "init", "cls": "Own", "data": rng.choice([{"pet": {"kind": "cat"}}, {}, {"pet": {"name": "rex"}}])})
         elif r < 0.45:
@@ -368,6 +374,22 @@ def run_op(world, op, inputs_out=None, prebuilt=None):
             inputs_out.append(data)
         mk = world.get("make_local")
         return _outcome(lambda: mk().__from__(data))
+    if k == "nested_assign":
+        cls = world.get("NOut")
+
+        def both():
+            outs = []
+            for first in (1, "1"):       # two spellings of one value: the parsed instances are equal
+                inst = cls(x={"a": first})
+
+                def assign(nested=inst.x):
+                    nested.a = op["value"]
+                    return nested
+                outs.append(_outcome(assign)[1])
+            if outs[0] != outs[1]:
+                raise AssertionError(f"equal nested instances took the assignment differently: {outs[0]} vs {outs[1]}")
+            return kernel.jdump(outs[0])
+        return _outcome(both)
     if k == "other_module":
         data = _val(op["data"])
 
@@ -454,6 +476,9 @@ def execute(plan):
         if prebuilt is not None:
             res.stats["probe:same_input_object_twice"] += 1
         val, out = run_op(main, op, inputs_out=inputs, prebuilt=prebuilt)
+        if k == "nested_assign" and out[:2] == ["exc", "AssertionError"]:
+            # P4: the outcome of the assignment is a function of declaration, options and the (equal) data
+            res.violate("C19|P4|nested_assign|equal_instances_take_assignment_differently", f"op #{n} {op}: {out[2]}")
         if k == "init" and inputs:
             kept_inputs[n] = inputs[0]
         hook_fired = faults.STATE.fired.get("hook_fail", 0) - fired0.get("hook_fail", 0)
